@@ -272,8 +272,13 @@ Matches(e) == LET fr == Top  code == Flat(fr.fn) IN
 \* the register the VM wrote holds the machine's value (compared before the next step, when the VM's hook reads it too)
 ResultAgrees == (last.idx > 0 /\ last.ref \in DOMAIN Top.regs /\ "res" \in DOMAIN Trace[last.idx])
                    => ValEq(Deref(Top.regs[last.ref]), Trace[last.idx].res)
+\* A case without a trace (free |-> TRUE) is simply executed: the machine as an interpreter of the IR, used to compare the
+\* unoptimised and the optimised module of one program on the IR's own semantics, independently of nsl/VM.py.
+Free == "free" \in DOMAIN Case /\ Case.free
+MaxFreeSteps == 20000
 Step == /\ status = "run"
-        /\ IF ~ResultAgrees THEN Halt("result-mismatch", Trace[last.idx].op) /\ l' = l
+        /\ IF Free THEN (IF l > MaxFreeSteps THEN Halt("fuel", "") /\ l' = l ELSE Exec /\ l' = l + 1)
+           ELSE IF ~ResultAgrees THEN Halt("result-mismatch", Trace[last.idx].op) /\ l' = l
            ELSE IF Top.pc > Len(Flat(Top.fn)) THEN Exec /\ l' = l            \* falling off the end of a function is not an instruction
            ELSE IF l > Len(Trace) THEN Halt("trace-ends-early", "the VM stopped while the machine still runs") /\ l' = l
            ELSE IF ~Matches(Trace[l]) THEN Halt("diverged", "the VM executed another instruction than the machine") /\ l' = l
